@@ -45,7 +45,7 @@ const fzMoreRule = " further families (after the sweeps of each configuration): 
 	"be accepted. Server: no panic/hang, reply 255 (65 only where the damaged value is still a valid parameter: Diffie-Hellman integers, ECDH trailing bytes); client: fdo.TO2 returns an error, " +
 	"never success (except ECDH trailing bytes, which are not read). Quick tier: (t) and (m) in the first configuration only; (t) every type for the real-prefix tokens in base64url, three resp. one " +
 	"type in rotation for the others; (m) a fixed selection that keeps every class and every extreme value (the thorough tier runs the full products in the first configuration); (k) every length " +
-	"for ECDH, and for the unstructured parameters (Diffie-Hellman integer, random string, OAEP ciphertext) the 16 lengths at either end and every 8th between."
+	"for ECDH, and for the unstructured parameters (Diffie-Hellman integer, random string, OAEP ciphertext) the 16 lengths at either end and every 8th between." + kexUnequalRule
 
 // fzMore runs the three families for one configuration. It is called while the client-side wrapper is still installed.
 func fzMore(f *fzRun, srv *fzSrv, cli *fzCli, first bool) {
@@ -672,6 +672,8 @@ type kexVar struct {
 	name string
 	f    func(x []byte) []byte // nil result: CBOR null instead of the byte string
 	same bool                  // the receiver reads the same parameter out of it (trailing bytes)
+	// dynamic: f works out same / must from the honest value it is applied to and leaves them in kexLastVerdict (kex_unequal.go)
+	dynamic bool
 }
 
 // kexNominal is the length of a key exchange parameter as the library writes it (a Diffie-Hellman value may come out
@@ -739,7 +741,7 @@ func kexVariants(suite kex.Suite, xA, quick bool) (out []kexVar) {
 			}
 		}
 	}
-	return out
+	return append(out, kexUnequalVariants(suite, quick)...)
 }
 
 // kexSet replaces a byte-string node by the variant's value; it reports whether that changed anything (a
@@ -841,6 +843,9 @@ func (s *fzSrv) kexSrv() {
 		}
 		c.Count("kex_reply", fmt.Sprintf("server %s %s -> %d", s.cf.kex, strings.SplitN(v.name, ":", 2)[0], rt))
 		must := strictAll || v.name == "null" || v.name == "trunc:0" || (ecdh && strings.HasPrefix(v.name, "trunc:"))
+		if v.dynamic {
+			v.same, must = kexLastVerdict.same, kexLastVerdict.must
+		}
 		if rt == 65 && must && !v.same && changed {
 			c.Fail("accepted-damaged-kex@server:64", fmt.Sprintf("server %s pos 64 %s: TO2.ProveDevice with a damaged key exchange parameter (%s, re-signed) was answered with 65", cfgName(s.cf), kind, v.name),
 				"fuzz.server", core.Params{"side": "server", "cfg": cfgName(s.cf), "pos": "64", "mutator": kind, "seed": fmt.Sprint(c.Seed), "case": fmt.Sprint(s.nCase)}, core.Obs{Impl: "type 65"})
@@ -890,6 +895,9 @@ func (s *fzCli) kexCli() {
 			return
 		}
 		c.Count("kex_reply", fmt.Sprintf("client %s %s -> %s", s.cf.kex, strings.SplitN(v.name, ":", 2)[0], s.last))
+		if v.dynamic {
+			v.same = kexLastVerdict.same
+		}
 		if s.last == "success" && !v.same && changed {
 			c.Fail("accepted-damaged-kex@client:TO2:61", fmt.Sprintf("client %s TO2:61 %s: fdo.TO2 succeeded although the key exchange parameter in TO2.ProveOVHdr was damaged (%s, re-signed with the owner key)",
 				cfgName(s.cf), kind, v.name), "fuzz.client", core.Params{"side": "client", "cfg": cfgName(s.cf), "role": "TO2", "pos": "TO2:61", "mutator": kind, "seed": fmt.Sprint(c.Seed), "case": fmt.Sprint(s.nCase)},
